@@ -553,6 +553,24 @@ def doOp (a : Acc) (idx : Nat) (op : Json) : R Acc := do
       return { a1 with s := { a1.s with db := compactRaced true a.s.db a1.s.db ds } }
     | _, _ => doOpCore a idx op
   else
+  if ((← getStr op "op") == "store" || (← getStr op "op") == "txn") && (getOpt op "race").isSome then
+    -- forced schedule of two writers: both must return, and the outcome is that of the two writes one after
+    -- the other (in the order the run reports: who committed first)
+    let race ← getObj op "race"
+    let inner ← getObj race "inner"
+    let raced := getBoolD op "raced" false
+    let expect := Json.mkObj [("deadlock", Json.bool false), ("raced", Json.bool raced)]
+    if getBoolD op "deadlock" false then
+      return { a with outM := a.outM.push expect, outS := a.outS.push expect, nt := a.nt + 1 }
+    let a1 ← if !raced then doOpCore a idx op
+      else if getStrD op "order" "outer" == "inner" then do
+        let x ← doOpCore a idx inner
+        doOpCore x idx op
+      else do
+        let x ← doOpCore a idx op
+        doOpCore x idx inner
+    return { a1 with outM := a1.outM.push expect, outS := a1.outS.push expect, nt := a1.nt + 1 }
+  else
   if (← getStr op "op") != "crash" then doOpCore a idx op else
   let inner ← getObj op "inner"
   let ikind ← getStr inner "op"
